@@ -78,6 +78,11 @@ pub mod rt {
         f.as_mut().poll(&mut cx)
     }
 
+    /// opaque `true` (bodies that return their result through an early `return`)
+    pub fn yes() -> bool {
+        std::hint::black_box(true)
+    }
+
     pub fn ran(_i: usize) {
         EXEC.fetch_add(1, Ordering::SeqCst);
         EXEC_TL.with(|e| e.set(e.get() + 1));
